@@ -7,3 +7,5 @@ import "github.com/consensys/gnark-crypto/ecc/bls12-381/fr"
 func verifToxicWaste(*toxicWaste) {}
 
 func verifProverRS(_, _ *fr.Element) {}
+
+func verifPostSolve([]fr.Element) {}
